@@ -205,27 +205,38 @@ func TestC09_Range(t *testing.T) {
 
 func TestC09_Random(t *testing.T) {
 	cov.Rule(c09Rule)
-	k := 0
-	rapidCheck(t, func(rt *rapid.T) {
-		var c *sizeCase
-		lang := rapid.OneOf(rapid.Int64Range(-2, 11), rapid.Int64()).Draw(rt, "lang")
-		if rapid.Bool().Draw(rt, "entropy") {
-			c = &sizeCase{Op: "entropy", Lang: lang,
-				Len:   rapid.OneOf(rapid.IntRange(0, 70), rapid.IntRange(0, 1<<16), gen.Size()).Draw(rt, "len"),
-				Extra: rapid.IntRange(0, 64).Draw(rt, "extra"),
-				Fill:  rapid.Byte().Draw(rt, "fill"),
-			}
-			if c.Len == 0 {
-				c.Nil = rapid.Bool().Draw(rt, "nil")
-			}
-		} else {
-			c = &sizeCase{Op: "count", Lang: lang,
-				N: rapid.OneOf(rapid.Int64Range(-50, 50), rapid.Int64(), rapid.Int64Range(-1<<33, 1<<33)).Draw(rt, "n")}
+	rapidCheck(t, c09RandomProp)
+}
+
+var c09RandomPropK int
+
+// c09RandomProp is the rapid property behind the test above and the native fuzz target below.
+func c09RandomProp(rt *rapid.T) {
+	var c *sizeCase
+	lang := rapid.OneOf(rapid.Int64Range(-2, 11), rapid.Int64()).Draw(rt, "lang")
+	if rapid.Bool().Draw(rt, "entropy") {
+		c = &sizeCase{Op: "entropy", Lang: lang,
+			Len:   rapid.OneOf(rapid.IntRange(0, 70), rapid.IntRange(0, 1<<16), gen.Size()).Draw(rt, "len"),
+			Extra: rapid.IntRange(0, 64).Draw(rt, "extra"),
+			Fill:  rapid.Byte().Draw(rt, "fill"),
 		}
-		c09Record(c)
-		if k++; k%999 == 1 {
-			cov.Sample("c09.size", c)
+		if c.Len == 0 {
+			c.Nil = rapid.Bool().Draw(rt, "nil")
 		}
-		judge(rt, "c09.size", c09Check, c)
-	})
+	} else {
+		c = &sizeCase{Op: "count", Lang: lang,
+			N: rapid.OneOf(rapid.Int64Range(-50, 50), rapid.Int64(), rapid.Int64Range(-1<<33, 1<<33)).Draw(rt, "n")}
+	}
+	c09Record(c)
+	if c09RandomPropK++; c09RandomPropK%999 == 1 {
+		cov.Sample("c09.size", c)
+	}
+	judge(rt, "c09.size", c09Check, c)
+}
+
+// FuzzC09 drives the same property coverage-guided (thorough tier): the fuzzer's bytes are
+// rapid's source of choices.
+func FuzzC09(f *testing.F) {
+	cov.Rule(c09Rule)
+	f.Fuzz(rapid.MakeFuzz(c09RandomProp))
 }
